@@ -72,6 +72,14 @@ impl<VM: VMBinding> GCWorkScheduler<VM> {
             }
         }
 
+        #[cfg(mmtk_verif)]
+        crate::verif::emit(|| {
+            format!(
+                "\"ev\":\"SchedInit\",\"workers\":{},\"nstages\":{}",
+                num_workers,
+                WorkBucketStage::LENGTH
+            )
+        });
         Arc::new(Self {
             work_buckets,
             worker_group,
@@ -433,6 +441,11 @@ impl<VM: VMBinding> GCWorkScheduler<VM> {
             }
 
             let ordinal = worker.ordinal;
+            #[cfg(mmtk_verif)]
+            {
+                crate::verif::emit(|| format!("\"ev\":\"PollEmpty\",\"w\":{}", ordinal));
+                crate::verif::sync_point("poll.empty", ordinal);
+            }
             self.worker_monitor
                 .park_and_wait(ordinal, |goals| self.on_last_parked(worker, goals))?;
         }
@@ -441,6 +454,8 @@ impl<VM: VMBinding> GCWorkScheduler<VM> {
     /// Called when the last worker parked.  `goal` allows this function to inspect and change the
     /// current goal.
     fn on_last_parked(&self, worker: &GCWorker<VM>, goals: &mut WorkerGoals) -> LastParkedResult {
+        #[cfg(mmtk_verif)]
+        crate::verif::emit(|| self.verif_snapshot(worker.ordinal, goals));
         let Some(ref current_goal) = goals.current() else {
             // There is no goal.  Find a request to respond to.
             return self.respond_to_requests(worker, goals);
@@ -493,6 +508,40 @@ impl<VM: VMBinding> GCWorkScheduler<VM> {
                 )
             }
         }
+    }
+
+    /// Verification hook: the scheduler state seen by the last parked worker (all other workers
+    /// are blocked, `WorkerMonitor::sync` is held). Stage numbers are enum index + 1.
+    #[cfg(mmtk_verif)]
+    fn verif_snapshot(&self, ordinal: usize, goals: &WorkerGoals) -> String {
+        let stages = |f: &dyn Fn(&WorkBucket<VM>) -> bool| -> String {
+            let v: Vec<String> = self
+                .work_buckets
+                .iter()
+                .filter(|(_, b)| f(b))
+                .map(|(id, _)| (id.into_usize() + 1).to_string())
+                .collect();
+            format!("[{}]", v.join(","))
+        };
+        let desig: Vec<String> = self
+            .worker_group
+            .workers_shared
+            .iter()
+            .enumerate()
+            .filter(|(_, w)| !w.designated_work.is_empty())
+            .map(|(i, _)| i.to_string())
+            .collect();
+        format!(
+            "\"ev\":\"LastParkedEnter\",\"w\":{},\"goal\":\"{}\",\"req\":{},\"open\":{},\"enabled\":{},\"nonempty\":{},\"sent\":{},\"desig\":[{}]",
+            ordinal,
+            super::worker_monitor::verif_goal_name(goals.current()),
+            super::worker_monitor::verif_requests(goals),
+            stages(&|b| b.is_open()),
+            stages(&|b| b.is_enabled()),
+            stages(&|b| !b.is_empty()),
+            stages(&|b| b.has_sentinel()),
+            desig.join(",")
+        )
     }
 
     /// Respond to a worker reqeust.
